@@ -22,7 +22,7 @@ pub static PROP: PropDef = PropDef {
         "codecs reached through the cfg-guarded re-export h3::qpack::verif (hook)",
     ],
     tape_len: 96,
-    random_cases: |t| t.pick(600_000, 20_000_000),
+    random_cases: |t| t.pick(2_400_000, 60_000_000),
     run_tape,
     exhaustive: Some(exhaustive),
     run_direct: Some(run_direct),
